@@ -95,6 +95,7 @@ type Runner struct {
 	Extra    map[string]interface{}
 	Samples  []interface{}
 	Workers  int
+	ReplayOverride func(hr *HarnessResult) string
 	Filter   *regexp.Regexp
 	Stubs    []string
 }
@@ -405,7 +406,13 @@ func (r *Runner) classify(res []HarnessResult) {
 				r.Extra["unreplayed_sat_harnesses"] = append(asStrings(r.Extra["unreplayed_sat_harnesses"]), hr.Name+": "+what)
 				continue
 			}
-			outcome := r.S.replayModel(rel, model)
+			outcome := ""
+			if r.ReplayOverride != nil {
+				outcome = r.ReplayOverride(hr)
+			}
+			if outcome == "" {
+				outcome = r.S.replayModel(rel, model)
+			}
 			rp := Replayed{Harness: hr.Name, Pkg: rel, Outcome: outcome}
 			reproduced := strings.HasPrefix(outcome, "assert-failed") || strings.HasPrefix(outcome, "panic")
 			if !reproduced {
@@ -565,8 +572,26 @@ func (r *Runner) writeEvidence() {
 
 // modeB runs hand-written harnesses that live inside a package of the repository itself (they need its
 // unexported identifiers): the harness files are copied into the scratch copy of that package.
-func (r *Runner) modeB(pkgRel string, filter string, native bool, bounds Bounds) {
-	src := filepath.Join(verifDir(), "harness", pkgRel)
+func (r *Runner) modeB(pkgRel string, filter string, native bool, bounds Bounds, extraDirs ...string) {
+	// additional harness/stub files for other packages of the repository ("main" = the module root)
+	for _, d := range extraDirs {
+		dst := d
+		if d == "main" {
+			dst = "."
+		}
+		ents, _ := os.ReadDir(filepath.Join(verifDir(), "harness", d))
+		for _, e := range ents {
+			if strings.HasSuffix(e.Name(), ".go") {
+				data, _ := os.ReadFile(filepath.Join(verifDir(), "harness", d, e.Name()))
+				os.WriteFile(filepath.Join(r.S.Repo, dst, e.Name()), data, 0o644)
+			}
+		}
+	}
+	srcRel := pkgRel
+	if pkgRel == "." {
+		srcRel = "main"
+	}
+	src := filepath.Join(verifDir(), "harness", srcRel)
 	ents, err := os.ReadDir(src)
 	if err != nil {
 		r.inconsistent("harness directory missing: " + src)
